@@ -262,7 +262,11 @@ func runErrorDelivery(b *harness.B) {
 				b.Violate("C19/error-delivery/"+s.name+"/error-flag-ignored", "an RPCError response was read as a successful response", wit)
 			case !errors.As(err, &got):
 				wit["read_error"] = err.Error()
-				b.Violate(fmt.Sprintf("C19/error-delivery/%s/not-delivered/description-limit-minus-%d", s.name, maxDesc-dl),
+				cls := "description-short"
+				if dl >= maxDesc-2 {
+					cls = fmt.Sprintf("description-limit-minus-%d", maxDesc-dl)
+				}
+				b.Violate(fmt.Sprintf("C19/error-delivery/%s/not-delivered/%s", s.name, cls),
 					fmt.Sprintf("RPCError{code %d, %d-byte description} (fits RPCError's own 1024-byte limit) as response to %s did not arrive as that error: %v", code, dl, s.name, err), wit)
 			case got.Code != want.Code || got.Description != want.Description:
 				wit["got_code"], wit["got_description_len"] = got.Code, len(got.Description)
